@@ -19,7 +19,7 @@
   value in every mode); minimality fails for day designator + minute/second without hour
   (known finding F9, `C20_earliest_counterexample_dayMinute`).
 -/
-import IsoDT.Lemmas.Trunc
+import IsoDT.Lemmas.TruncTerm
 
 namespace IsoDT.Props.C20
 open IsoDT IsoDT.Model IsoDT.Lemmas
@@ -69,6 +69,40 @@ theorem C20_periodic_loops_terminate (m : Mode) (p : TP) (hp : p.Strict m) :
   · obtain ⟨q, h1, _, h3, _⟩ := loop_mi m p hp t ht; exact ⟨q, h1, h3⟩
   · obtain ⟨q, h1, _, h3, _⟩ := loop_hh m p hp t ht; exact ⟨q, h1, h3⟩
   · obtain ⟨q, h1, _, h3, _⟩ := loop_dow m p hp hk t ht; exact ⟨q, h1, h3⟩
+
+/-- **The day-of-month, day-of-year and week loops terminate** within their fuel from any valid
+    point of the right representation, for every target value the (repaired) bounds check admits
+    in the mode: day 1..31 (30 in the 360-day calendar), day-of-year up to 366 where the mode has
+    leap years (a leap year starts within 7 years), week up to 53 (52 in the 360-day calendar; a
+    week-year that long starts within 7 years - 400-year / 7-year periodicity plus a kernel-checked
+    table over one period). -/
+theorem C20_day_loops_terminate (m : Mode) (p : TP) (hp : p.Strict m) :
+    (p.date.rep = 0 → ∀ t, 1 ≤ t ∧ t ≤ (calOf m).maxDaysInMonth →
+      ∃ q, loopField m getDom (fun q => { q with date := bumpDay q.date 1 }) t fuelDom p = some q) ∧
+    (p.date.rep = 1 → ∀ t, 1 ≤ t ∧ t ≤ (calOf m).daysInYearLeap →
+      ∃ q, loopField m getDoy (fun q => { q with date := bumpDay q.date 1 }) t fuelDoy p = some q) ∧
+    (p.date.rep = 2 → ∀ t, 1 ≤ t ∧ t ≤ (calOf m).maxWeeksInYear →
+      ∃ q, loopField m getWeek bumpWeek t fuelWeek p = some q) := by
+  refine ⟨fun hk t ht => ?_, fun hk t ht => ?_, fun hk t ht => ?_⟩
+  · exact loop_dom_terminates m p hp hk t ht.1 (by rw [← maxDom_eq]; exact ht.2)
+  · exact loop_doy_terminates m p hp hk t ht.1 (by rw [← (daysInYearRec_eq m).2]; exact ht.2)
+  · exact loop_week_terminates m p hp hk t ht.1 (by rw [← maxW_eq]; exact ht.2)
+
+/-- A loop result, whatever the loop: a valid point in the same offset and representation, not
+    earlier than where the loop started. -/
+theorem C20_loop_result (m : Mode) (get : TP → Int) (bump : TP → TP) (target delta : Int) (kr fuel : Nat)
+    (hb : StepOK m bump delta kr) (hd : 0 ≤ delta) (p q : TP) (hp : p.Strict m) (hk : p.date.rep = kr)
+    (h : loopField m get bump target fuel p = some q) :
+    q.Strict m ∧ q.tz = p.tz ∧ q.date.rep = p.date.rep ∧ p.inst m ≤ q.inst m ∧ get q = target := by
+  obtain ⟨k, _, hs, hg, _⟩ := loopField_spec m get bump target fuel p q h
+  obtain ⟨x, hx, xs, xi, xt, xr⟩ := stepsFrom_spec m bump delta kr hb k p hp hk
+  rw [hs] at hx
+  have : q = x := by simpa using hx
+  subst this
+  refine ⟨xs, xt, xr, ?_, hg⟩
+  rw [xi]
+  have := Int.mul_nonneg (Int.natCast_nonneg k) hd
+  omega
 
 /-! ### time-of-day shapes: the result is the earliest match -/
 
